@@ -61,6 +61,11 @@ class Contract:
         self.ghost_args = dict(kw.pop("ghost_args", {}))
         # {local variable: TMap(...)}: a local `x = dict()` / `x = {}` is modelled as a heap map of that type
         self.local_types = dict(kw.pop("local_types", {}))
+        # {name: types}: additional variants that are only MATCHED at call sites (never verified themselves): the symbolic form of a
+        # parameter whose finite domain is covered exhaustively by the verified variants (e.g. shift = 0..62 one variant each)
+        self.call_variants = dict(kw.pop("call_variants", {}))
+        # general float * and / of two unknown operands become uninterpreted functions (see Engine.fp_uf)
+        self.float_abstract = kw.pop("float_abstract", False)
         if kw:
             raise TypeError("unknown contract options %r for %s" % (list(kw), key))
         self._clauses = {}
